@@ -82,3 +82,26 @@ pub mod observer {
         }
     }
 }
+
+/// Call-through wrappers for the crate-private sparse matrix-vector traits
+/// (`MatrixVectorMultiply`, `SymMatrixVectorMultiply`) and `findnz`.
+pub mod csc {
+    use crate::algebra::{CscMatrix, FloatT, MatrixVectorMultiply, SymMatrixVectorMultiply};
+
+    /// `y = a*A*x + b*y`
+    pub fn gemv_n<T: FloatT>(A: &CscMatrix<T>, y: &mut [T], x: &[T], a: T, b: T) {
+        A.gemv(y, x, a, b)
+    }
+    /// `y = a*A'*x + b*y`
+    pub fn gemv_t<T: FloatT>(A: &CscMatrix<T>, y: &mut [T], x: &[T], a: T, b: T) {
+        A.t().gemv(y, x, a, b)
+    }
+    /// `y = a*sym(A)*x + b*y`, `A` holding the upper triangle
+    pub fn symv<T: FloatT>(A: &CscMatrix<T>, y: &mut [T], x: &[T], a: T, b: T) {
+        A.sym().symv(y, x, a, b)
+    }
+    /// `findnz`
+    pub fn findnz<T: FloatT>(A: &CscMatrix<T>) -> (Vec<usize>, Vec<usize>, Vec<T>) {
+        A.findnz()
+    }
+}
